@@ -8,3 +8,5 @@ open RV.C20
 #print axioms refused_write_no_effect
 #print axioms pattern_query_shape
 #print axioms reads_exact
+#print axioms commit_sends_whole_queue_in_order
+#print axioms dedup_would_lose_a_write
